@@ -276,38 +276,51 @@ func traceHedge(maxHedges int, conds string, spec []string) string {
 
 func init() {
 	slices["trace"] = func() slice { return traceSlice{} }
-	generators["trace"] = func(r *rand.Rand, n int, tier string, emit func(string) string) {
-		for c := 0; c < n; c++ {
-			emit(fmt.Sprintf("case trace-%d", c))
-			for k := 0; k < 4; k++ {
-				kind := pick(r, "short", "near", "near", "tight", "tight", "long", "block")
-				dur := 50
-				switch kind {
-				case "near":
-					dur = int(traceLimit/time.Microsecond) + r.Intn(400) - 200
-				case "tight":
-					// the function returns within a few tens of microseconds of the timer: both sides reach their CAS together
-					dur = int(traceLimit/time.Microsecond) + r.Intn(120) - 90
-				case "long":
-					dur = 20000
+	// one generator per model, so that each property's check only replays the runs its own model explains
+	gen := func(kinds string) generator {
+		return func(r *rand.Rand, n int, tier string, emit func(string) string) {
+			for c := 0; c < n; c++ {
+				emit(fmt.Sprintf("case trace-%d", c))
+				if strings.Contains(kinds, "timeout") {
+					for k := 0; k < 4; k++ {
+						kind := pick(r, "short", "near", "near", "tight", "tight", "long", "block")
+						dur := 50
+						switch kind {
+						case "near":
+							dur = int(traceLimit/time.Microsecond) + r.Intn(400) - 200
+						case "tight":
+							// the function returns within a few tens of microseconds of the timer: both sides reach their CAS together
+							dur = int(traceLimit/time.Microsecond) + r.Intn(120) - 90
+						case "long":
+							dur = 20000
+						}
+						emit(fmt.Sprintf("trace timeout %s %s %d", pick(r, "alone", "alone", "fallback", "async"), kind, dur))
+					}
 				}
-				emit(fmt.Sprintf("trace timeout %s %s %d", pick(r, "alone", "alone", "fallback", "async"), kind, dur))
-			}
-			for k := 0; k < 3; k++ {
-				mh := r.Intn(4)
-				var spec []string
-				for j := 0; j <= mh; j++ {
-					spec = append(spec, fmt.Sprintf("%d:%d", pick(r, 0, 100, 350, 450, 700, 1200, 2000), r.Intn(2)))
+				if strings.Contains(kinds, "hedge") {
+					for k := 0; k < 3; k++ {
+						mh := r.Intn(4)
+						var spec []string
+						for j := 0; j <= mh; j++ {
+							spec = append(spec, fmt.Sprintf("%d:%d", pick(r, 0, 100, 350, 450, 700, 1200, 2000), r.Intn(2)))
+						}
+						emit(fmt.Sprintf("trace hedge %d %s %s", mh, pick(r, "any", "odd", "odd"), strings.Join(spec, " ")))
+					}
 				}
-				emit(fmt.Sprintf("trace hedge %d %s %s", mh, pick(r, "any", "odd", "odd"), strings.Join(spec, " ")))
-			}
-			for k := 0; k < 4; k++ {
-				cancel := -1
-				if r.Intn(3) == 0 {
-					cancel = r.Intn(300)
+				if strings.Contains(kinds, "future") {
+					for k := 0; k < 4; k++ {
+						cancel := -1
+						if r.Intn(3) == 0 {
+							cancel = r.Intn(300)
+						}
+						emit(fmt.Sprintf("trace future %s %d %d %d", pick(r, "get", "exec"), 1+r.Intn(4), cancel, r.Intn(300)))
+					}
 				}
-				emit(fmt.Sprintf("trace future %s %d %d %d", pick(r, "get", "exec"), 1+r.Intn(4), cancel, r.Intn(300)))
 			}
 		}
 	}
+	generators["trace"] = gen("timeout hedge future")
+	generators["tracetimeout"] = gen("timeout")
+	generators["tracehedge"] = gen("hedge")
+	generators["tracefuture"] = gen("future")
 }
